@@ -79,8 +79,8 @@ pub fn digest_main(seed: u64, idx: u64, slot: u64) {
                     std::fs::write(format!("{p}.{slot}.y.rs"), normalise_generated(&ps, &dir)).ok();
                     std::fs::write(format!("{p}.{slot}.l.rs"), normalise_generated(&ls, &dir)).ok();
                 }
-                println!("PARSER_RS {:016x} {}", hash_str(&normalise_generated(&ps, &dir)), ps.len());
-                println!("LEXER_RS {:016x} {}", hash_str(&normalise_generated(&ls, &dir)), ls.len());
+                println!("PARSER_RS {:016x} {}", hash_str(&normalise_generated(&ps, &dir)), normalise_generated(&ps, &dir).len());
+                println!("LEXER_RS {:016x} {}", hash_str(&normalise_generated(&ls, &dir)), normalise_generated(&ls, &dir).len());
             }
         }
         std::fs::remove_dir_all(&dir).ok();
